@@ -38,6 +38,17 @@ AuxInit == [tid |-> "", mem |-> MemInit,
             rpcOpen |-> EmptyFn,     \* task -> number of state-changing commits so far
             rpcDepth |-> EmptyFn,    \* task -> nesting depth of request handlers
             decl |-> EmptyFn,        \* stepKey -> declaration of the last accepted define_step
+            cmdStartAt |-> EmptyFn,  \* job -> line of its cmd_start
+            jobStep |-> EmptyFn,     \* job -> stepKey
+            succeededAt |-> EmptyFn, \* stepKey -> line of the commit that made it SUCCEEDED (this lifetime)
+            cmdEndedAt |-> EmptyFn,  \* stepKey -> line of the last end of its command (this lifetime)
+            reads |-> EmptyFn,       \* job -> set of <<path, content>> read by the running command
+            finalReads |-> EmptyFn,  \* stepKey -> reads of its last successful command in this phase
+            tainted |-> {},          \* jobs whose declared/amended input changed while they ran
+            taintPath |-> EmptyFn,   \* job -> path whose change tainted it
+            refreshed |-> {},        \* paths whose recorded content was replaced while a tainted job ran
+            refreshedPhase |-> {},   \* the same, kept until the end of the phase
+            inputChanged |-> FALSE,  \* an input changed underneath a running step in this phase
             produced |-> EmptyFn,    \* path -> content last written by the step that declared it as output
             volatileEver |-> {},     \* paths ever declared volatile
             diskBefore |-> EmptyFn,  \* files on disk when the last phase ended (before clean-up)
@@ -48,7 +59,7 @@ AuxInit == [tid |-> "", mem |-> MemInit,
             draining |-> FALSE,
             dispatchedAfterFail |-> FALSE]
 
-CounterNames == {"finalize_end", "removed_files", "write", "commit", "wellformed", "transition", "pop_dispatch", "pop_none", "cmd_start",
+CounterNames == {"amend", "read", "final_reads_checked", "tainted", "finalize_end", "removed_files", "write", "commit", "wellformed", "transition", "pop_dispatch", "pop_none", "cmd_start",
                  "phase_end", "rpc_reject", "rpc_ok", "hold", "traces", "pop_none_with_eligible"}
 CntInit == [c \in CounterNames |-> 0]
 Bump(c, name) == [c EXCEPT ![name] = @ + 1]
@@ -135,10 +146,25 @@ OnCommit(e, lineNo) ==
         tr == IF IsNoState(st) THEN {} ELSE TransitionViolations(st, new, aux.inflight)
         df == IF IsNoState(st) THEN {} ELSE DeferViolations(st, new, aux.mem.cap)
         task == e.task
+        \* steps that became SUCCEEDED in this commit
+        nowOk == IF IsNoState(st) THEN {} ELSE
+                 {s \in Steps(new) : new.nodes[s].sstate = "SUCCEEDED"
+                      /\ (s \notin Keys(st) \/ st.nodes[s].sstate # "SUCCEEDED")}
+        jobsOf(s) == {j \in DOMAIN aux.jobStep : aux.jobStep[j] = s}
+        \* C03: an input changed underneath the running command => the step must not succeed
+        lastJob(s) == CHOOSE j \in jobsOf(s) : \A i \in jobsOf(s) : j >= i
+        \* F10: the recorded content of the changed input was replaced by another step's
+        \* completion while this command was still running, which hides the change from its own
+        \* re-hash at completion
+        c03 == {<<"succeeded_although_input_changed_while_running", s,
+                  IF lastJob(s) \in DOMAIN aux.taintPath /\ aux.taintPath[lastJob(s)] \in aux.refreshed
+                  THEN "F10-input-change-masked-by-concurrent-refresh" ELSE "">> :
+                   s \in {s \in nowOk : jobsOf(s) # {} /\ lastJob(s) \in aux.tainted}}
     IN
     /\ st' = new
     /\ bad' = bad \o Mk(e, lineNo, "C09", wf \cup tr) \o Mk(e, lineNo, "C08", own)
                   \o Mk(e, lineNo, "C10", Classify(new, cw) \cup df)
+                  \o Mk(e, lineNo, "C03", c03)
     /\ aux' = [aux EXCEPT
           !.inTxn = FALSE,
           !.inflight = IF IsNoState(st) THEN @ ELSE SettleInflight(st, new, @),
@@ -147,6 +173,20 @@ OnCommit(e, lineNo) ==
                         /\ new.nodes[@[c]].holding > 0}),
           !.holdDepth = Restrict(@, {c \in DOMAIN @ :
                         c \in Keys(new) /\ new.nodes[c].sstate = "RUNNING"}),
+          !.refreshed = IF IsNoState(st) THEN @ ELSE
+                        @ \cup {aux.taintPath[j] : j \in {j \in DOMAIN aux.taintPath :
+                              LET f == "file:" \o aux.taintPath[j] IN
+                                f \in Keys(st) /\ f \in Keys(new) /\ st.nodes[f].fhash # new.nodes[f].fhash}},
+          !.refreshedPhase = IF IsNoState(st) THEN @ ELSE
+                        @ \cup {aux.taintPath[j] : j \in {j \in DOMAIN aux.taintPath :
+                              LET f == "file:" \o aux.taintPath[j] IN
+                                f \in Keys(st) /\ f \in Keys(new) /\ st.nodes[f].fhash # new.nodes[f].fhash}},
+          !.succeededAt = [x \in (DOMAIN @) \cup nowOk |-> IF x \in nowOk THEN e.k ELSE @[x]],
+          !.finalReads = [x \in (DOMAIN @) \cup {s \in nowOk : jobsOf(s) # {}} |->
+                            IF x \in nowOk /\ jobsOf(x) # {}
+                            THEN LET j == CHOOSE j \in jobsOf(x) : \A i \in jobsOf(x) : j >= i
+                                 IN {r \in aux.reads[j] : <<"file:" \o r[1], x>> \in Deps(new)}
+                            ELSE @[x]],
           !.lostEdge = IF IsNoState(st) THEN @
                        ELSE @ \cup {d[1] : d \in {x \in Deps(st) \ Deps(new) :
                                      x[1] \in Keys(st) /\ st.nodes[x[1]].kind = "file"}},
@@ -231,12 +271,16 @@ OnCmdStart(e, lineNo) ==
   IN /\ bad' = bad \o Mk(e, lineNo, "C12", over \cup res \cup held)
                    \o Mk(e, lineNo, "C03", avail) \o Mk(e, lineNo, "C09", state)
                    \o Mk(e, lineNo, "C11", need)
-     /\ aux' = [aux EXCEPT !.running = @ \cup {<<e.job, s>>}]
+     /\ aux' = [aux EXCEPT !.running = @ \cup {<<e.job, s>>},
+                            !.cmdStartAt = Put(@, e.job, e.k),
+                            !.jobStep = Put(@, e.job, s),
+                            !.reads = Put(@, e.job, {})]
      /\ cnt' = Bump(cnt, "cmd_start")
      /\ UNCHANGED st
 
 OnCmdEnd(e) ==
-  /\ aux' = [aux EXCEPT !.running = {p \in @ : p[1] # e.job}]
+  /\ aux' = [aux EXCEPT !.running = {p \in @ : p[1] # e.job},
+                        !.cmdEndedAt = Put(@, StepKey(e.step), e.k)]
   /\ UNCHANGED <<st, bad, cnt>>
 
 MutatingRpc == {"declare_static", "register_glob", "define_step", "amend_step",
@@ -283,7 +327,10 @@ OnRpcEnd(e, lineNo) ==
       \* an accepted define_step takes full effect: the stored step is what was declared
       effect == IF e.outcome = "ok" /\ e.name = "define_step" /\ ~IsNoState(st)
                 THEN DefineEffect(st, e.decl, c) ELSE {}
+      globp == IF e.outcome = "ok" /\ ~IsNoState(st) /\ e.name \in {"define_step", "amend_step", "register_glob", "declare_static"}
+               THEN GlobProductViolations(st) ELSE {}
   IN /\ bad' = bad \o Mk(e, lineNo, "C15", atom \cup effect) \o Mk(e, lineNo, "C09", internal)
+                   \o Mk(e, lineNo, "C08", globp)
      /\ aux' = [aux EXCEPT
            \* a handler that calls another handler is still one request of one client
            !.rpcOpen = IF nested THEN @ ELSE Drop(@, e.task),
@@ -344,10 +391,63 @@ OnPhaseEnd(e, lineNo) ==
              THEN {<<"needed_step_not_built", s>> : s \in {s \in Steps(st) : ~st.nodes[s].detached
                       /\ NeededStep(st, aux.mem, s) /\ st.nodes[s].sstate # "SUCCEEDED"}}
              ELSE {}
+      \* C03: a step that is SUCCEEDED at the end of the phase read, for each of its inputs, the
+      \* content that the file has (and is recorded with) at the end of the phase
+      c03 == {<<"succeeded_step_read_content_that_is_not_final", <<s, r[1]>>>> :
+                 s \in {s \in DOMAIN aux.finalReads : s \in Keys(st) /\ st.nodes[s].sstate = "SUCCEEDED"},
+                 r \in {} } \cup
+             UNION {{<<"succeeded_step_read_content_that_is_not_final", <<s, r[1]>>,
+                        IF r[1] \in aux.refreshedPhase THEN "F10-input-change-masked-by-concurrent-refresh" ELSE "">> :
+                        r \in {r \in aux.finalReads[s] :
+                                 <<"file:" \o r[1], s>> \in Deps(st) /\
+                                 \* "the content recorded for that file at the end of the build"
+                                 st.nodes["file:" \o r[1]].fhash # r[2]}} :
+                    s \in {s \in DOMAIN aux.finalReads : s \in Keys(st) /\ st.nodes[s].sstate = "SUCCEEDED"}}
   IN /\ bad' = bad \o Mk(e, lineNo, "C10", left) \o Mk(e, lineNo, "C19", c19) \o Mk(e, lineNo, "C11", c11)
-     /\ cnt' = Bump(cnt, "phase_end")
-     /\ aux' = [aux EXCEPT !.diskBefore = e.disk.files, !.phaseRc = e.rc]
+                   \o Mk(e, lineNo, "C03", c03)
+     /\ cnt' = [Bump(cnt, "phase_end") EXCEPT !["final_reads_checked"] = @ + Cardinality(DOMAIN aux.finalReads)]
+     /\ aux' = [aux EXCEPT !.diskBefore = e.disk.files, !.phaseRc = e.rc, !.finalReads = EmptyFn,
+                           !.tainted = {}, !.inputChanged = FALSE, !.taintPath = EmptyFn,
+                           !.refreshed = {}, !.refreshedPhase = {}]
      /\ UNCHANGED st
+
+(* ---------------------- C03: inputs are final while a command runs ----------------------- *)
+OnRead(e) ==
+  /\ aux' = IF e.job \in DOMAIN aux.reads /\ e.content # NULL
+            THEN [aux EXCEPT !.reads = [@ EXCEPT ![e.job] = @ \cup {<<e.path, e.content>>}]]
+            ELSE aux
+  /\ cnt' = Bump(cnt, "read")
+  /\ UNCHANGED <<st, bad>>
+
+OnAmendResult(e, lineNo) ==
+  IF IsNoState(st) \/ e.job \notin DOMAIN aux.cmdStartAt THEN UNCHANGED <<st, aux, bad, cnt>> ELSE
+  LET s == StepKey(e.step)
+      inp == {e.inp[i] : i \in DOMAIN e.inp}
+      f(p) == "file:" \o p
+      unavailable == {p \in inp : f(p) \notin Keys(st) \/ st.nodes[f(p)].detached
+                                   \/ st.nodes[f(p)].fstate \notin Available}
+      \* BUILT by a step that was still running after this command started
+      unfresh == {p \in inp \ unavailable : st.nodes[f(p)].fstate = "BUILT"
+                    /\ Up(st, f(p)) \in DOMAIN aux.cmdEndedAt
+                    /\ aux.cmdEndedAt[Up(st, f(p))] > aux.cmdStartAt[e.job]}
+      v == IF e.carry_on
+           THEN {<<"amended_unavailable_input_accepted", p>> : p \in unavailable}
+                \cup {<<"amended_input_of_still_running_producer_accepted", p>> : p \in unfresh}
+           ELSE {}
+  IN /\ bad' = bad \o Mk(e, lineNo, "C03", v)
+     /\ aux' = IF ~e.carry_on THEN [aux EXCEPT !.tainted = @ \cup {e.job}] ELSE aux
+     /\ cnt' = Bump(cnt, "amend")
+     /\ UNCHANGED st
+
+\* an external edit (or a write by another command) of a path that a running command uses as input
+OnExtEdit(e) ==
+  IF IsNoState(st) \/ e.path = "" \/ ~e.changed THEN UNCHANGED <<st, aux, bad, cnt>> ELSE
+  LET hit == {p[1] : p \in {q \in aux.running : <<"file:" \o e.path, q[2]>> \in Deps(st)}}
+  IN /\ aux' = [aux EXCEPT !.tainted = @ \cup hit,
+                           !.taintPath = [j \in (DOMAIN @) \cup hit |-> IF j \in hit THEN e.path ELSE @[j]],
+                           !.inputChanged = @ \/ hit # {}]
+     /\ cnt' = IF hit # {} THEN Bump(cnt, "tainted") ELSE cnt
+     /\ UNCHANGED <<st, bad>>
 
 (* ------------------- C06 / C07 / C11: clean-up and need at the end of a phase ------------- *)
 OnWrite(e) ==
@@ -447,6 +547,9 @@ Handle(e, lineNo) ==
     [] e.ev = "rpc_end" -> OnRpcEnd(e, lineNo)
     [] e.ev = "phase_end" -> OnPhaseEnd(e, lineNo)
     [] e.ev = "write" -> OnWrite(e)
+    [] e.ev = "read" -> OnRead(e)
+    [] e.ev = "amend_result" -> OnAmendResult(e, lineNo)
+    [] e.ev = "ext_edit" -> OnExtEdit(e)
     [] e.ev = "finalize_end" -> OnFinalizeEnd(e, lineNo)
     [] e.ev \in {"hang", "director_exc", "step_exc"} -> OnFault(e, lineNo)
     [] OTHER -> UNCHANGED <<st, aux, bad, cnt>>
